@@ -245,7 +245,7 @@ class Base(_BaseClass):
 
              "with \" char" => with " char
         """
-        if token:
+        if token and token[1]:
             value = token[1]
             return value.replace('\\' + value[0], value[0])[1:-1]
         else:
